@@ -418,9 +418,9 @@ def run_history_c26_3d(ch, tr: Trace) -> None:
                 new[s_] = g2.copy()
                 desc.append((s_.name, cs))
             handed = dict(new)
-        guarded("mortar replacement", lambda: mdg.replace_subdomains_and_interfaces(interface_map={intf: handed}))
-        if ch.flag(1, 3):
-            handed.clear()  # the caller reuses the dictionary it passed
+            guarded("mortar replacement", lambda: mdg.replace_subdomains_and_interfaces(interface_map={intf: handed}))
+            if ch.flag(1, 3):
+                handed.clear()  # the caller reuses the dictionary it passed
             tr.probe("mortar_nonmatching_3d")
             tr.op("replace_mortar_3d", "ok", desc)
             state["n"] += 1
